@@ -93,17 +93,17 @@ fn sym_char() -> u8
 
 /// independent statement of "the extension of a file name": the part after the last dot, provided
 /// the dot is not the first character (a leading dot makes a hidden file, not an extension)
-fn spec_ext(name: &[u8]) -> Option<usize>
+fn spec_ext(rel: &[u8; wd::MAX_REL], from: usize, to: usize) -> Option<usize>
 {
-    if name.len() == 2 && name[0] == b'.' && name[1] == b'.'
+    if to - from == 2 && rel[from] == b'.' && rel[from + 1] == b'.'
     {
         return None;
     }
     let mut dot: Option<usize> = None;
-    let mut i = 0;
-    while i < name.len()
+    let mut i = from;
+    while i < to
     {
-        if name[i] == b'.'
+        if rel[i] == b'.'
         {
             dot = Some(i);
         }
@@ -112,7 +112,7 @@ fn spec_ext(name: &[u8]) -> Option<usize>
     match dot
     {
         None => None,
-        Some(0) => None,
+        Some(d) if d == from => None,
         Some(d) => Some(d + 1),
     }
 }
@@ -197,9 +197,9 @@ fn u_find()
                 i += 1;
             }
             // walkdir never yields the entries "." and ".."
-            let name = &rel[name_off[f]..len];
-            kani::assume(!(name.len() == 1 && name[0] == b'.'));
-            kani::assume(!(name.len() == 2 && name[0] == b'.' && name[1] == b'.'));
+            let n0 = name_off[f];
+            kani::assume(!(len - n0 == 1 && rel[n0] == b'.'));
+            kani::assume(!(len - n0 == 2 && rel[n0] == b'.' && rel[n0 + 1] == b'.'));
             wd::MODEL.entries[f] = wd::ModelEntry { kind, depth: if deep { 2 } else { 1 }, rel, len };
             f += 1;
         }
@@ -232,19 +232,32 @@ fn u_find()
         while f < NFILES
         {
             let e = wd::MODEL.entries[f];
-            let name = &e.rel[name_off[f]..e.len];
+            // (index arithmetic on the arrays themselves: no sub-slices in the oracle)
+            let n0 = name_off[f];
             let mut in_scope = false;
             if e.kind == wd::KIND_FILE
             {
-                if let Some(from) = spec_ext(name)
+                if let Some(from) = spec_ext(&e.rel, n0, e.len)
                 {
-                    let ext = &name[from..];
                     let mut k = 0;
                     while k < NEXT
                     {
-                        if bytes_eq(ext, &ext_bytes[k][..ext_len[k]])
+                        if e.len - from == ext_len[k]
                         {
-                            in_scope = true;
+                            let mut same = true;
+                            let mut i = 0;
+                            while i < ext_len[k]
+                            {
+                                if e.rel[from + i] != ext_bytes[k][i]
+                                {
+                                    same = false;
+                                }
+                                i += 1;
+                            }
+                            if same
+                            {
+                                in_scope = true;
+                            }
                         }
                         k += 1;
                     }
@@ -255,10 +268,19 @@ fn u_find()
             if j < finder.code_files.len()
             {
                 let p = finder.code_files[j].path.as_bytes();
-                if p.len() == ROOT.len() + 1 + e.len && bytes_eq(&p[..ROOT.len()], ROOT) && p[ROOT.len()] == b'/'
-                    && bytes_eq(&p[ROOT.len() + 1..], &e.rel[..e.len])
+                if p.len() == ROOT.len() + 1 + e.len
                 {
-                    is_next = true;
+                    let mut same = p[0] == ROOT[0] && p[1] == ROOT[1] && p[2] == b'/';
+                    let mut i = 0;
+                    while i < e.len
+                    {
+                        if p[3 + i] != e.rel[i]
+                        {
+                            same = false;
+                        }
+                        i += 1;
+                    }
+                    is_next = same;
                 }
             }
             if in_scope && ok
